@@ -7,12 +7,17 @@
 // VERIF_DEPTH of steps, each step = (which entities are mutated: none | 0 | 0,1 | 0,1,2) x (what happens to this tick's
 // mutate messages: all delivered | all held back | only the first delivered, rest held | all but the first delivered,
 // first held | last one lost, rest delivered), or Flush (everything held back is delivered, newest first), followed by a
-// closing Flush. Update messages are always delivered at once. The harness counts what the server sent per tick and what
+// closing Flush. A step may also spawn an entity, so that the tick has an update message which its mutate messages must
+// wait for; that update message is delivered at once or held back (reliable and ordered: held update messages are always
+// delivered before later ones). The harness counts what the server sent per tick and what
 // reached the client. After every client frame:
-//   E  every `MutateTickReceived { tick }` names a tick of which ALL messages have reached the client, and no tick is
-//      notified twice;
+//   E  every `MutateTickReceived { tick }` names a tick of which ALL messages have reached the client (and whose update
+//      message has arrived), and no tick is notified twice;
 //   C  a tick whose last missing message arrived in this frame is notified in this frame (exactly once);
 //   Q  `ServerMutateTicks::contains(tick)` is true exactly for the ticks of which all messages have arrived.
+// In addition, boundary scenarios for the encoded count: one tick with exactly n mutate messages for n at the varint and
+// 16-bit boundaries (1, 127..129, 16 383, 16 384, 65 535..65 537) - reported exactly once, and
+// only after the last message.
 #[cfg(test)]
 mod verif_search_t {
     extern crate std;
@@ -41,7 +46,7 @@ mod verif_search_t {
     #[derive(Clone, Copy, Debug, PartialEq)]
     enum Fate { All, Hold, FirstOnly, AllButFirst, LoseLast }
     #[derive(Clone, Copy, Debug, PartialEq)]
-    enum Op { Step(u8, Fate), Flush }
+    enum Op { Step(u8, Fate, u8), Flush }
 
     fn new_app() -> App {
         let mut app = App::new();
@@ -56,9 +61,12 @@ mod verif_search_t {
     }
 
     #[derive(Clone, Copy)]
-    struct TickRec { tick: u32, sent: usize, arrived: usize, notified: usize }
+    struct TickRec { tick: u32, sent: usize, arrived: usize, notified: usize, /// index into the update-message sequence this tick's mutate messages wait for
+        needs_update: usize }
 
-    struct Sim { server: App, client: App, ce: Entity, ents: Vec<Entity>, ver: u8, held: Vec<(u32, Vec<u8>)>, ticks: Vec<TickRec> }
+    struct Sim { server: App, client: App, ce: Entity, ents: Vec<Entity>, ver: u8, held: Vec<(u32, Vec<u8>)>, ticks: Vec<TickRec>,
+                 /// update messages sent / delivered so far, and those held back (in order)
+                 updates_sent: usize, updates_delivered: usize, held_updates: Vec<Vec<(usize, Vec<u8>)>> }
 
     impl Sim {
         fn new() -> Self {
@@ -75,22 +83,25 @@ mod verif_search_t {
             }
             server.world_mut().get_mut::<ConnectedClient>(ce).unwrap().max_size = 100;
             client.world_mut().resource_mut::<Events<MutateTickReceived>>().clear();
-            Self { server, client, ce, ents, ver: 10, held: Vec::new(), ticks: Vec::new() }
+            Self { server, client, ce, ents, ver: 10, held: Vec::new(), ticks: Vec::new(), updates_sent: 0, updates_delivered: 0, held_updates: Vec::new() }
         }
 
         fn rec(&mut self, tick: u32) -> &mut TickRec { self.ticks.iter_mut().find(|t| t.tick == tick).expect("harness: message of an unknown tick") }
 
         /// Delivers `msgs` (mutate messages with their tick), runs one client frame, returns the acks and checks E, C, Q.
-        fn client_frame(&mut self, updates: Vec<(usize, Vec<u8>)>, msgs: Vec<(u32, Vec<u8>)>, step: usize) -> Option<String> {
+        fn client_frame(&mut self, updates: Vec<Vec<(usize, Vec<u8>)>>, msgs: Vec<(u32, Vec<u8>)>, step: usize) -> Option<String> {
             let mutations_channel: usize = ServerChannel::Mutations.into();
-            for (ch, m) in updates { self.client.world_mut().resource_mut::<RepliconClient>().insert_received(ch, m); }
-            let mut completed: Vec<u32> = Vec::new();
+            let done_before: Vec<u32> = self.ticks.iter().filter(|r| r.arrived == r.sent && r.needs_update <= self.updates_delivered).map(|r| r.tick).collect();
+            for batch in updates {
+                self.updates_delivered += 1;
+                for (ch, m) in batch { self.client.world_mut().resource_mut::<RepliconClient>().insert_received(ch, m); }
+            }
             for (tick, m) in msgs {
                 self.client.world_mut().resource_mut::<RepliconClient>().insert_received(mutations_channel, m);
-                let r = self.rec(tick);
-                r.arrived += 1;
-                if r.arrived == r.sent { completed.push(tick); }
+                self.rec(tick).arrived += 1;
             }
+            let delivered = self.updates_delivered;
+            let completed: Vec<u32> = self.ticks.iter().filter(|r| r.arrived == r.sent && r.needs_update <= delivered && !done_before.contains(&r.tick)).map(|r| r.tick).collect();
             self.client.update();
             self.server.exchange_with_client(&mut self.client);
             let events: Vec<u32> = self.client.world_mut().resource_mut::<Events<MutateTickReceived>>().drain().map(|e| e.tick.get()).collect();
@@ -99,6 +110,9 @@ mod verif_search_t {
                 r.notified += 1;
                 if r.arrived < r.sent {
                     return Some(format!("step {step}: tick {t} was reported as fully received after {} of its {} mutate messages", r.arrived, r.sent));
+                }
+                if r.needs_update > delivered {
+                    return Some(format!("step {step}: tick {t} was reported as fully received although its mutate messages still wait for an update message"));
                 }
                 if r.notified > 1 { return Some(format!("step {step}: tick {t} was reported as fully received {} times", r.notified)); }
             }
@@ -113,14 +127,15 @@ mod verif_search_t {
                 let got = tracker.contains(RepliconTick::new(r.tick));
                 let newest = self.ticks.last().map(|l| l.tick).unwrap_or(r.tick);
                 if newest - r.tick >= 60 { continue; } // outside the 64-tick window everything counts as received
-                if got != (r.arrived == r.sent) {
+                if got != (r.arrived == r.sent && r.needs_update <= delivered) {
                     return Some(format!("step {step}: ServerMutateTicks::contains({}) = {got}, but {} of its {} messages have arrived", r.tick, r.arrived, r.sent));
                 }
             }
             None
         }
 
-        fn step(&mut self, count: u8, fate: Fate, step: usize) -> Option<String> {
+        fn step(&mut self, count: u8, fate: Fate, structural: u8, step: usize) -> Option<String> {
+            if structural > 0 { self.server.world_mut().spawn((Replicated, Blob(std::vec![0xEE; 4]))); }
             for i in 0..count as usize {
                 self.ver = self.ver.wrapping_add(1);
                 let v = self.ver;
@@ -136,7 +151,14 @@ mod verif_search_t {
                 if ch == mutations_channel { muts.push((tick, m.to_vec())); } else { updates.push((ch, m.to_vec())); }
             }
             if muts.is_empty() { return Some(format!("step {step}: tracking is on but the server sent no mutate message for tick {tick}")); }
-            self.ticks.push(TickRec { tick, sent: muts.len(), arrived: 0, notified: 0 });
+            if !updates.is_empty() { self.updates_sent += 1; }
+            self.ticks.push(TickRec { tick, sent: muts.len(), arrived: 0, notified: 0, needs_update: self.updates_sent });
+            // reliable and ordered: an update message goes out now only if it is not to be held and nothing older is held
+            let mut updates_now: Vec<Vec<(usize, Vec<u8>)>> = Vec::new();
+            if !updates.is_empty() {
+                self.held_updates.push(updates);
+                if structural != 2 { updates_now = core::mem::take(&mut self.held_updates); }
+            }
             let n = muts.len();
             let (now, later): (Vec<_>, Vec<_>) = match fate {
                 Fate::All => (muts, Vec::new()),
@@ -146,38 +168,83 @@ mod verif_search_t {
                 Fate::LoseLast => { muts.truncate(n - 1); (muts, Vec::new()) }
             };
             self.held.extend(later);
-            self.client_frame(updates, now, step)
+            self.client_frame(updates_now, now, step)
         }
 
         fn flush(&mut self, step: usize) -> Option<String> {
             let mut held = core::mem::take(&mut self.held);
             held.reverse();
-            self.client_frame(Vec::new(), held, step)
+            let updates = core::mem::take(&mut self.held_updates);
+            self.client_frame(updates, held, step)
         }
     }
 
     fn run(ops: &[Op]) -> Option<String> {
         let mut s = Sim::new();
         for (step, op) in ops.iter().enumerate() {
-            let r = match *op { Op::Step(c, f) => s.step(c, f, step), Op::Flush => s.flush(step) };
+            let r = match *op { Op::Step(c, f, u) => s.step(c, f, u, step), Op::Flush => s.flush(step) };
             if r.is_some() { return r; }
         }
         s.flush(ops.len()).map(|w| format!("[closing flush] {w}"))
     }
 
-    fn show(ops: &[Op]) -> String { ops.iter().map(|o| match o { Op::Step(c, f) => format!("Step{c}{f:?}"), Op::Flush => String::from("Flush") }).collect::<Vec<_>>().join(",") }
+    /// Boundary scenario for the per-tick message count: one tick with exactly `n` mutate messages (n entities, `max_size` 1),
+    /// all delivered in one client frame: exactly one notification for that tick, and `contains` afterwards.
+    fn run_big(n: usize) -> Option<String> {
+        let mut server = new_app();
+        let mut client = new_app();
+        server.connect_client(&mut client);
+        let ce = **client.world().resource::<TestClientEntity>();
+        let ents: Vec<Entity> = server.world_mut().spawn_batch((0..n).map(|_| (Replicated, Blob(std::vec![1u8])))).collect();
+        for _ in 0..2 {
+            server.update();
+            server.exchange_with_client(&mut client);
+            client.update();
+            server.exchange_with_client(&mut client);
+        }
+        server.world_mut().get_mut::<ConnectedClient>(ce).unwrap().max_size = 1;
+        client.world_mut().resource_mut::<Events<MutateTickReceived>>().clear();
+        for e in &ents { *server.world_mut().get_mut::<Blob>(*e).unwrap() = Blob(std::vec![2u8]); }
+        server.update();
+        let tick = server.world().resource::<ServerTick>().get();
+        let mutations_channel: usize = ServerChannel::Mutations.into();
+        let msgs: Vec<Vec<u8>> = server.world_mut().resource_mut::<RepliconServer>().drain_sent().filter(|(c, ch, _)| *c == ce && *ch == mutations_channel).map(|(.., m)| m.to_vec()).collect();
+        if msgs.len() != n { return Some(format!("harness expectation: {n} entities with max_size 1 gave {} mutate messages", msgs.len())); }
+        // all but the last message first: the tick must not be reported yet
+        let last = msgs.len() - 1;
+        for m in &msgs[..last] { client.world_mut().resource_mut::<RepliconClient>().insert_received(mutations_channel, m.clone()); }
+        client.update();
+        let early = client.world_mut().resource_mut::<Events<MutateTickReceived>>().drain().filter(|e| e.tick.get() == tick).count();
+        if early != 0 && n > 1 { return Some(format!("tick {tick} has {n} mutate messages; it was reported as fully received after {last} of them")); }
+        client.world_mut().resource_mut::<RepliconClient>().insert_received(mutations_channel, msgs[last].clone());
+        client.update();
+        let fired = client.world_mut().resource_mut::<Events<MutateTickReceived>>().drain().filter(|e| e.tick.get() == tick).count();
+        if fired + early != 1 { return Some(format!("tick {tick} has {n} mutate messages, all delivered; it was reported {} time(s)", fired + early)); }
+        if !client.world().resource::<ServerMutateTicks>().contains(RepliconTick::new(tick)) { return Some(format!("all {n} messages of tick {tick} arrived but contains({tick}) is false")); }
+        None
+    }
+
+    fn show(ops: &[Op]) -> String { ops.iter().map(|o| match o { Op::Step(c, f, u) => format!("Step{c}{f:?}{}", ["", "+Spawn", "+SpawnHeld"][*u as usize]), Op::Flush => String::from("Flush") }).collect::<Vec<_>>().join(",") }
     fn parse(sv: &str) -> Vec<Op> {
         sv.split(',').filter(|t| !t.is_empty()).map(|t| {
             if t == "Flush" { return Op::Flush; }
             let c = t.as_bytes().get(4).map(|b| b - b'0').unwrap_or(0);
+            let (t, u) = if let Some(x) = t.strip_suffix("+SpawnHeld") { (x, 2) } else if let Some(x) = t.strip_suffix("+Spawn") { (x, 1) } else { (t, 0) };
             let f = match &t[5.min(t.len())..] { "Hold" => Fate::Hold, "FirstOnly" => Fate::FirstOnly, "AllButFirst" => Fate::AllButFirst, "LoseLast" => Fate::LoseLast, _ => Fate::All };
-            Op::Step(c, f)
+            Op::Step(c, f, u)
         }).collect()
     }
 
     #[test]
     fn verif_native_u03s() {
         if let Ok(fixed) = std::env::var("VERIF_OPS") {
+            if let Some(n) = fixed.strip_prefix("Big-").and_then(|n| n.parse::<usize>().ok()) {
+                if let Some(why) = guarded(|| run_big(n)) {
+                    println!("VERIF-COUNTEREXAMPLE policy=- ops=Big-{n} :: {why}");
+                    panic!("property violated on the real code: {why}");
+                }
+                return;
+            }
             let ops = parse(&fixed);
             if let Some(why) = guarded(|| run(&ops)) {
                 println!("VERIF-COUNTEREXAMPLE policy=- ops={} :: {why}", show(&ops));
@@ -191,9 +258,11 @@ mod verif_search_t {
             for f in [Fate::All, Fate::Hold, Fate::FirstOnly, Fate::AllButFirst, Fate::LoseLast] {
                 // with a single message FirstOnly = All, AllButFirst = Hold
                 if c <= 1 && matches!(f, Fate::FirstOnly | Fate::AllButFirst) { continue; }
-                ops.push(Op::Step(c, f));
+                ops.push(Op::Step(c, f, 0));
             }
         }
+        // ticks that also carry an update message (a spawn), delivered at once or held back
+        for c in 1..=2u8 { for f in [Fate::All, Fate::FirstOnly, Fate::Hold] { if c == 1 && f == Fate::FirstOnly { continue; } for u in 1..=2u8 { ops.push(Op::Step(c, f, u)); } } }
         ops.push(Op::Flush);
         let mut jobs: Vec<Vec<Op>> = Vec::new();
         for len in 0..=depth {
@@ -226,6 +295,24 @@ mod verif_search_t {
             println!("VERIF-COUNTEREXAMPLE policy=- ops={} :: {why}", show(&jobs[i]));
             panic!("property violated on the real code: {why}");
         }
-        println!("VERIF-EXPLORED sequences={}", jobs.len());
+        // the encoding boundaries of the per-tick message count (1-, 2-, 3-byte varint; 16-bit range)
+        let bigs: std::vec::Vec<usize> = std::vec![1, 127, 128, 129, 16383, 16384, 65535, 65536, 65537];
+        let big_bad: std::sync::Mutex<Option<(usize, String)>> = std::sync::Mutex::new(None);
+        std::thread::scope(|sc| {
+            for &n in &bigs {
+                let big_bad = &big_bad;
+                sc.spawn(move || {
+                    if let Some(why) = guarded(|| run_big(n)) {
+                        let mut b = big_bad.lock().unwrap();
+                        if b.as_ref().is_none_or(|(m, _)| n < *m) { *b = Some((n, why)); }
+                    }
+                });
+            }
+        });
+        if let Some((n, why)) = big_bad.into_inner().unwrap() {
+            println!("VERIF-COUNTEREXAMPLE policy=- ops=Big-{n} :: {why}");
+            panic!("property violated on the real code: {why}");
+        }
+        println!("VERIF-EXPLORED sequences={}", jobs.len() + bigs.len());
     }
 }
